@@ -493,6 +493,12 @@ func sanWitnesses(out *common.Out, stats map[string]int) {
 	if strings.Split(i1, " | ")[0] != strings.Split(i2, " | ")[0] {
 		stats["witness-pos-result-differs"]++
 	}
+	// the record-coherent variant: the very same error value twice (sanitize_perm_refuted)
+	i1 = emitSan(out, "w0", "L", []rec{a, b, a})
+	i2 = emitSan(out, "w0", "L", []rec{a, a, b})
+	if strings.Split(i1, " | ")[0] != strings.Split(i2, " | ")[0] {
+		stats["witness-pos-same-value-result-differs"]++
+	}
 	// the same with two files of the same name
 	p2 := posSpec{name: "a.cue", off: 3, bits: 1 << 6}
 	q2 := posSpec{name: "a.cue", off: 3, bits: 2 << 6}
